@@ -51,6 +51,32 @@ def compile_src(source, word=2, stack=500, unchecked=False, lint=False):
     return list(cg.gen_lines())
 
 
+def compile_file_bytes(data, word=2, stack=500, unchecked=False):
+    """like compile_src, but through the command-line tool's input path: the bytes are written to a scratch file and read
+    back with SourceCode.from_file"""
+    load()
+    import os
+    from hidc.lexer import SourceCode
+    from hidc.parser import parse
+    from hidc.ast import Environment
+    from hidc.codegen import CodeGen
+    scratch = os.environ.get('HIDVERIF_SCRATCH') or os.path.join(VERIF, '.scratch')
+    os.makedirs(scratch, exist_ok=True)
+    path = os.path.join(scratch, f'src-{os.getpid()}.hid')
+    with open(path, 'wb') as f:
+        f.write(data)
+    try:
+        env = Environment.empty()
+        parse(SourceCode.from_file(path)).evaluate(env)
+        cg = CodeGen(env, word_size=word, stack_size=stack, unchecked=unchecked)
+        return list(cg.gen_lines())
+    finally:
+        try:
+            os.remove(path)
+        except OSError:
+            pass
+
+
 def typecheck_src(source, lint=False):
     load()
     from hidc.lexer import SourceCode
